@@ -10,6 +10,7 @@
 -/
 import QlibcModel.HashTbl.WalkMap
 import QlibcModel.HashTbl.DecLemmas
+import QlibcModel.HashTbl.Args
 
 namespace Qlibc.Props.C05
 open Qlibc Qlibc.Dec Qlibc.HashTbl
@@ -80,6 +81,58 @@ theorem putint_getint {s : Tbl} {m : AssocMap} (A : Abs h s m) (k : Bytes) (n : 
     rw [hg]
     exact atoll_intToDec n
   exact ⟨h1, fun h2 h3 => by rw [h1, clamp64_id h2 h3]⟩
+
+/-- getint of ANY stored value (written by put / putstr / putstrf / putint) is `atoll` of those
+    bytes — 0 for an absent key; `atoll_reads_base10` says what that is -/
+theorem getint_spec {s : Tbl} {m : AssocMap} (A : Abs h s m) (k : Bytes) :
+    getint s k (h k) = (match m.lookup k with | none => .ok 0 | some d => atoll d) := by
+  unfold getint
+  rw [A.look k]
+  cases AssocMap.lookup k m <;> rfl
+
+/-- `atoll` (hence getint on strings like "010", "0x1f", " 42", "+7", "-0", "1e3",
+    "9223372036854775808"): leading white space, ONE optional sign, decimal digits up to the first
+    other byte, saturating at the 64-bit limits; base 10 only (`accum` is the decimal value) -/
+theorem atoll_reads_base10 (ws ds : List UInt8) (c : UInt8) (rest : List UInt8)
+    (hws : ∀ w ∈ ws, isSpaceC w = true) (hd : ∀ d ∈ ds, isDigitC d = true) (hc : isDigitC c = false) :
+    atoll (ws ++ 45 :: ds ++ c :: rest) = .ok (clamp64 (-(accum 0 ds : Nat))) ∧
+    atoll (ws ++ 43 :: ds ++ c :: rest) = .ok (clamp64 (accum 0 ds : Nat)) ∧
+    (ds ≠ [] → atoll (ws ++ ds ++ c :: rest) = .ok (clamp64 (accum 0 ds : Nat))) ∧
+    (isSpaceC c = false → (c == 45) = false → (c == 43) = false → atoll (ws ++ c :: rest) = .ok 0) :=
+  atoll_base10 ws ds c rest hws hd hc
+
+/-- the instances the streams use: "010" is ten (no octal), "0x1f" is zero (no hex), " 42" and
+    "+7" are read, "-0" is zero, 2^63 saturates -/
+example : atoll [48, 49, 48, 0] = .ok 10 ∧ atoll [48, 120, 49, 102, 0] = .ok 0 ∧ atoll [32, 52, 50, 0] = .ok 42 ∧
+    atoll [43, 55, 0] = .ok 7 ∧ atoll [45, 48, 0] = .ok 0 ∧ atoll [49, 101, 51, 0] = .ok 1 ∧ atoll [0] = .ok 0 ∧
+    atoll [57, 50, 50, 51, 51, 55, 50, 48, 51, 54, 56, 53, 52, 55, 55, 53, 56, 48, 56, 0] = .ok int64Max :=
+  ⟨rfl, rfl, rfl, rfl, rfl, rfl, rfl, rfl⟩
+
+/-- every entry point rejects a NULL name / data / string / object with EINVAL (debug: a NULL
+    stream with EIO) and leaves the table exactly as it was, whatever the other arguments are -/
+theorem null_args_rejected (s : Tbl) (k : KeyArg) (d : Option Bytes) (n : Int) (f : Bytes) :
+    putA s none d = (s, false, .einval) ∧ putA s k none = (s, false, .einval) ∧
+    putstrA s none d = (s, false, .einval) ∧ putstrA s k none = (s, false, .einval) ∧
+    putstrfA s none f = (s, false, .einval) ∧ putintA s none n = (s, false, .einval) ∧
+    getA s none = (none, .einval) ∧ getintA s none = (.ok 0, .einval) ∧
+    removeA s none = (s, false, .einval) ∧ getnextA s none = (.ok none, .einval) ∧
+    debugA false = (false, .eio) := by
+  refine ⟨rfl, ?_, rfl, ?_, rfl, rfl, rfl, rfl, rfl, rfl, rfl⟩
+  · cases k <;> rfl
+  · cases k <;> rfl
+
+/-- the battery of the harness op `inv` (17 calls on the current table): every call fails with
+    EINVAL (the last with EIO) and the final table is the initial one -/
+theorem inv_is_identity (s : Tbl) :
+    runCalls invBattery s = (s, List.replicate 16 (false, Err.einval) ++ [(false, Err.eio)]) := rfl
+
+/-- with valid arguments the checked entry points are the modelled operations -/
+theorem valid_args_are_ops (s : Tbl) (k v : Bytes) :
+    putA s (some (k, h k)) (some v) = (put s k (h k) v, true, .none) ∧
+    (getA s (some (k, h k))).1 = get s k (h k) ∧
+    (removeA s (some (k, h k))).1 = (remove s k (h k)).2 ∧ (removeA s (some (k, h k))).2.1 = (remove s k (h k)).1 := by
+  refine ⟨rfl, ?_, rfl, rfl⟩
+  cases hg : get s k (h k) <;> simp [getA, hg]
 
 /-- non-vacuity: a reachable two-key single-chain table satisfies the hypotheses -/
 example : ∃ s m, Abs (fun _ => 7) s m ∧ IdInv s ∧ m.length = 2 :=
